@@ -53,7 +53,7 @@ def accept (s : TSt) : Ev → Option TSt
     if Guard s.d s.low (.walAppend id b) ∧ FreshBatch s.d b ∧ (∃ w ∈ s.d.wals, w.id = id) then
       some { s with d := apply s.d (.walAppend id b), batches := b :: s.batches }
     else none
-  | .ack b => if (∀ e ∈ b, e ∈ syncedRecs s.d) then some { s with acked := s.acked ++ b } else none
+  | .ack b => if (∀ e ∈ b, e ∈ syncedRecs s.d ∨ e ∈ tableEnts s.d) then some { s with acked := s.acked ++ b } else none
   | .raise low => if s.low ≤ low then some { s with low := low } else none
   | .op o => if Guard s.d s.low o ∧ GuardWF s.d o then some { s with d := apply s.d o } else none
 
